@@ -17,7 +17,7 @@ MANIFEST = dict(
           "the separator header itself is not covered by a checksum"),
     technique="Lean 4 proof over executable model + differential correspondence (C harness vs compiled Lean driver)")
 MODULE = "IwModel.Props.C05"
-THEOREMS = ["IwModel.C05.recover_cut", "IwModel.C05.applied_record_complete", "IwModel.C05.crc_detects_partial",
+THEOREMS = ["IwModel.C05.recover_cut", "IwModel.C05.applied_record_complete", "IwModel.C05.crc_detects_partial", "IwModel.C05.crc_detects_payload_partial",
             "IwModel.C05.recover_cut_reset", "IwModel.C05.prescan_cut_savepoint", "IwModel.C05.segClosedB_sound",
             "IwModel.C05.wal_layout_ok"]
 
